@@ -27,6 +27,7 @@ def showEv : Ev → Option String
   | .retryScheduled i ms t => some s!"# retry {i} {ms} {t}"
   | .abort w => some s!"abort {w}"
   | .uaf w => some s!"uaf {w}"
+  | .ghost _ => none
 
 /-- environment lines recorded by the implementation for this step → model inputs + poll result -/
 def feedEnv (c : C) (env : List (List String)) : C × List Src :=
